@@ -851,7 +851,9 @@ for _w in ('thdm', 'mssm'):
 # ---------------------------------------------------------------------------------------------------
 M1L = 'src/MSSMNoFV/gm2_1loop.cpp'
 MSSM_LL = [(M2L, n) for n in ('amu2LFSfapprox', 'amu2LFSfapprox_non_tan_beta_resummed', 'delta_g1', 'delta_g2', 'delta_yuk_higgsino', 'delta_yuk_bino_higgsino',
-                              'delta_yuk_wino_higgsino', 'delta_tan_beta')]
+                              'delta_yuk_wino_higgsino', 'delta_tan_beta')] + \
+          [(M1L, n) for n in ('amu1LWHnu', 'amu1LWHmuL', 'amu1LBHmuL', 'amu1LBHmuR', 'amu1LBmuLmuR', 'amu1Lapprox', 'amu1Lapprox_non_tan_beta_resummed', 'tan_beta_cor',
+                              'delta_mu_correction', 'delta_tau_correction', 'delta_bottom_correction')]
 
 def make_mssm_domain(file, fn):
     @obligation('C11.mssm.domains.%s' % fn, fns=[(file, fn)])
